@@ -7,6 +7,7 @@ total=0; bad=0
 for d in seeded/*/; do
   n=$(basename "$d")
   checks=$(python3 -c "import json,sys; print(' '.join(json.load(open('$d/meta.json'))['caught_by']))")
+  if python3 -c "import json,sys; sys.exit(0 if json.load(open('$d/meta.json')).get('neutralised_by') else 1)"; then echo "neutralised $n (see meta.json)"; continue; fi
   out=$(tools/run_seeded.sh "$V/$d/patch.diff" $checks 2>&1)
   total=$((total+1))
   if echo "$out" | grep -q "CAUGHT"; then echo "ok     $n: $(echo "$out" | grep -c CAUGHT)/$(echo $checks | wc -w) checks catch it"; else bad=$((bad+1)); echo "NOT-CAUGHT $n: $(echo "$out" | tr '\n' ' ' | cut -c1-200)"; fi
